@@ -80,6 +80,8 @@ def perturb_strategy(ctx):
         st.fixed_dictionaries({"kind": st.just("mutant"), "m": mutate_strategy_lite(n_files)}),
         st.fixed_dictionaries({"kind": st.just("own"), "fi": st.integers(0, max(n_own - 1, 0))}),
         st.fixed_dictionaries({"kind": st.just("order"), "decls": order_strategy()}),
+        # static objects with generated initialisers (C07's generator): string patching, designators, unknown-size arrays
+        st.fixed_dictionaries({"kind": st.just("inits"), "case": _init_cases()}),
         # raw token texts of every class with splices and odd punctuator runs (C13's generator): the lexer's pushback and
         # lookahead paths are where the input channel (pipe, file, path argument) can make a difference
         st.fixed_dictionaries({"kind": st.just("text"), "text": _token_texts(), "wrap": st.sampled_from(["plain", "stringize", "lines"])}),
@@ -87,6 +89,11 @@ def perturb_strategy(ctx):
     )
     return st.fixed_dictionaries({"input": inp, "t": st.integers(0, 2), "E": st.booleans(),
                                   "perts": st.lists(pert, min_size=2, max_size=4)})
+
+
+def _init_cases():
+    from ..gen import initgen
+    return initgen.init_cases()
 
 
 def _token_texts():
@@ -162,6 +169,9 @@ def _input_bytes(inp, ctx):
             return b"int x;\n", "x.c"
         p = ctx.data["own"][inp["fi"] % len(ctx.data["own"])]
         return open(p, "rb").read(), os.path.basename(p)
+    if k == "inits":
+        from . import c07
+        return c07.static_source(inp["case"]).encode(), "inits.c"
     if k == "text":
         t = inp["text"]
         if inp["wrap"] == "stringize":
